@@ -128,8 +128,19 @@ fn exec_caught<S: SubCheck>(s: &S, case: &S::Case) -> Outcome {
     }
 }
 
+/// Development aid only (never set by run.sh or the manifest commands): VERIF_ONLY=sub1,sub2 runs just those sub-checks.
+fn skipped_by_dev_filter(name: &str) -> bool {
+    match std::env::var("VERIF_ONLY") {
+        Ok(v) if !v.is_empty() => !v.split(',').any(|x| x == name),
+        _ => false,
+    }
+}
+
 /// Run `cases` generated cases of the sub-check, in parallel, with shrinking of the first failure.
 pub fn run_sub<S: SubCheck>(ctx: &PropCtx, s: &S, cases: u32) {
+    if skipped_by_dev_filter(s.name()) {
+        return;
+    }
     let workers = s.workers().max(1).min(cases.max(1) as usize);
     let stop = AtomicBool::new(false);
     std::thread::scope(|scope| {
@@ -217,6 +228,9 @@ pub fn run_sub<S: SubCheck>(ctx: &PropCtx, s: &S, cases: u32) {
 
 /// Run an explicit list of cases (exhaustive enumerations, regression corpora) in parallel.
 pub fn run_list<S: SubCheck>(ctx: &PropCtx, s: &S, sub_name: &str, cases: Vec<S::Case>) {
+    if skipped_by_dev_filter(s.name()) {
+        return;
+    }
     let workers = s.workers().max(1);
     let chunk = cases.len().div_ceil(workers).max(1);
     let first_fail: std::sync::Mutex<Option<(S::Case, Fail)>> = std::sync::Mutex::new(None);
